@@ -274,6 +274,9 @@ func (re *Regexp) FindStringMatchStartingAt(s string, startAt int) (*Match, erro
 
 // FindRunesMatchStartingAt searches the input rune slice for a Regexp match starting at the startAt index
 func (re *Regexp) FindRunesMatchStartingAt(r []rune, startAt int) (*Match, error) {
+	if startAt > len(r) {
+		return nil, errors.New("startAt must not be greater than the length of the input")
+	}
 	return re.run(false, startAt, -1, r, newMatchText(r))
 }
 
